@@ -27,6 +27,7 @@ RULE = ('One data file holds 1..3 planted sources, each from its own model (fit(
         'Non-trivial = non-degenerate case with >= 2 models; distinct = distinct canonical JSON.')
 RULE += (' ' + 'Also varied: per-model wavelength grids in per-file packages, documented file layouts (.gz, sub-directories, parameters.fits.gz), stored units.')
 RULE += (' ' + 'Cube packages: one band may be given to fit() as a wavelength, cube apertures in AU / pc / cm, a Fitter made before fit() (reversed filters) is used after it; one of the other models may have no flux at all.')
+RULE += (' ' + 'A third of the planted sources (>= 3 filters) carry lower / upper limits that the planted model satisfies by 0.3..1.5 dex.')
 ASSUMPTIONS = [
     'chi2[0] <= 1e-6 (+ float32 slack for cube packages, whose model fluxes fit() memory-maps as float32)',
     'A_V and scale within 1e-6*(1+|p|) plus the first-order float32 perturbation bound',
@@ -65,6 +66,14 @@ def cases(draw):
                        'sc0': draw(st.floats(-2., 2., allow_nan=False)),
                        'flags': [draw(st.sampled_from([1, 4])) for _ in range(nf)],
                        'rel': [draw(gen.logfloat(1e-3, 0.5)) for _ in range(nf)]})
+    # some bands of a planted source are only limits, and the planted model satisfies them with a wide margin: they cost
+    # nothing at the planted solution
+    for pl in plants:
+        pl['limits'] = [None] * nf
+        if nf >= 3 and draw(st.integers(0, 2)) == 0:
+            for j in draw(st.lists(st.integers(0, nf - 1), min_size=1, max_size=max(1, nf - 2), unique=True)):
+                pl['limits'][j] = [draw(st.sampled_from([2, 3])), draw(st.sampled_from([0.3, 0.5, 1.5])),
+                                   draw(st.sampled_from([0.5, 0.9, 0.99, 1.]))]
     c['plants'] = plants
     # one of the OTHER models may emit nothing at all (zero flux everywhere: its fits are undefined and it must simply not
     # get in the way of the planted model)
@@ -109,16 +118,24 @@ def prepare(case, plant, idx, conv, k, grid, float32, dead=frozenset()):
     if any(abs(t) > 100. for t in target):
         return 'skip', 'flux_out_of_float_range_skipped'
     flux, err = [], []
+    limits = list(plant.get('limits') or []) + [None] * nf
+    flags = list(plant['flags'])
     for j in range(nf):
         rel = plant['rel'][j]
-        if plant['flags'][j] == 4:
+        if limits[j] is not None:
+            kind, margin, conf = limits[j]
+            flags[j] = kind
+            # lower limit below, upper limit above what the planted model predicts
+            flux.append(10. ** (target[j] - margin if kind == 2 else target[j] + margin))
+            err.append(conf)
+        elif plant['flags'][j] == 4:
             flux.append(target[j])
             err.append(rel / of.LN10)
         else:
             lf = target[j] + 0.5 * rel * rel / of.LN10
             flux.append(10. ** lf)
             err.append(rel * 10. ** lf)
-    src = {'name': 'planted%d' % idx, 'x': 1., 'y': 2., 'flags': plant['flags'], 'flux': flux, 'err': err}
+    src = {'name': 'planted%d' % idx, 'x': 1., 'y': 2., 'flags': flags, 'flux': flux, 'err': err}
     bands = of.transform_source(src['flags'], src['flux'], src['err'])
     slack0 = 0.
     if pkg['apdep']:
@@ -226,6 +243,8 @@ def run_case(case, ctx):
     if not plants:
         return labels, False
     labels.add('sources_in_data_file=%d' % len(plants))
+    if any(f_ in (2, 3) for p_ in plants for f_ in p_['src']['flags']):
+        labels.add('planted_source_with_satisfied_limits')
     # ---- the pipeline under test
     with ctx.tempdir() as d:
         mdir = os.path.join(d, 'models')
@@ -294,9 +313,10 @@ def run_case(case, ctx):
             if abs(sc - p['sc0']) > p['sc_tol']:
                 fail('%s: reported scale %r, expected %r' % (plant, sc, p['sc0']), 'c08:scale_not_recovered')
             # ---- parameter listing: source line, then one line per kept fit
-            if pos >= len(body) or body[pos][0] != p['src']['name'] or int(body[pos][1]) != nf or int(body[pos][2]) != info.n_fits:
+            ndat = sum(1 for f_ in p['src']['flags'] if f_ in (1, 4))
+            if pos >= len(body) or body[pos][0] != p['src']['name'] or int(body[pos][1]) != ndat or int(body[pos][2]) != info.n_fits:
                 fail('%s: listing source line %r (expected n_data %d, n_fits %d)' % (
-                    plant, body[pos] if pos < len(body) else None, nf, info.n_fits), 'c08:listing_source_line')
+                    plant, body[pos] if pos < len(body) else None, ndat, info.n_fits), 'c08:listing_source_line')
             rows = body[pos + 1: pos + 1 + info.n_fits]
             pos += 1 + info.n_fits
             if len(rows) != info.n_fits:
